@@ -1,3 +1,4 @@
+mod drive;
 mod gate;
 mod pool;
 mod replay;
@@ -25,6 +26,16 @@ fn main() {
             max_mismatch_traces: arg(&args, "--max-mismatch").and_then(|v| v.parse().ok()).unwrap_or(200),
             sample_every: arg(&args, "--sample-every").and_then(|v| v.parse().ok()).unwrap_or(500),
         }),
+        "drive" => drive::run(drive::DriveCfg {
+            out_dir: arg(&args, "--out").unwrap_or_else(|| "out/drive".into()),
+            seed: arg(&args, "--seed").and_then(|v| v.parse().ok()).unwrap_or(1),
+            files: arg(&args, "--files").and_then(|v| v.parse().ok()).unwrap_or(4),
+            histories: arg(&args, "--histories").and_then(|v| v.parse().ok()).unwrap_or(10),
+            ops: arg(&args, "--ops").and_then(|v| v.parse().ok()).unwrap_or(100),
+            mode: arg(&args, "--mode").unwrap_or_else(|| "mixed".into()),
+            nh: arg(&args, "--nh").and_then(|v| v.parse().ok()).unwrap_or(4),
+        }),
+        "rerun" => drive::rerun(&arg(&args, "--in").expect("--in"), &arg(&args, "--out").expect("--out")),
         _ => {
             eprintln!("usage: lsverif replay|drive|... [options]");
             2
